@@ -9,6 +9,7 @@ from sklearn.linear_model import Ridge
 from skmatter.decomposition import KernelPCovR, PCovR
 from skmatter.preprocessing import KernelNormalizer
 from vf import gen, pc
+from vf.core import vary_layout
 
 ID = "C05"
 TITLE = "KernelPCovR agrees with PCovR and its kernel plumbing; scores any held-out set"
@@ -218,8 +219,8 @@ def check(case, ctx):
     ctx.close("explicit-centering==oracle", Kvc_lib, Kvc, 1e-9 * max(1.0, np.abs(Kvc).max()), "KernelNormalizer on the test kernel")
     B = build(dict(kernel="precomputed"), regB, False)
     with ctx.lib("fit-precomputed"):
-        B.fit(Kc_lib, fit_Y, **fit_kw)
-        TB, PB = B.transform(Kvc_lib), B.predict(Kvc_lib)
+        B.fit(vary_layout(Kc_lib, 1), fit_Y, **fit_kw)
+        TB, PB = B.transform(vary_layout(Kvc_lib, 2)), B.predict(vary_layout(Kvc_lib, 3))
     if determined:
         ok = sign_compare(ctx, "named==precomputed:transform", TA, TB, w, k, sc, "named kernel vs precomputed (held-out)")
         ctx.close("named==precomputed:predict", np.asarray(PA).reshape(len(Xv), -1), np.asarray(PB).reshape(len(Xv), -1),
